@@ -49,26 +49,27 @@ open SqlVerif.Pratt (W Sym str)
 -- ------------------------------------------------------------------ the `>>` bookkeeping
 /-- the lexer (`retok`) on the printed pre-tokens of `t` followed by `k` closing brackets of
 enclosing constructs and then `post` is the compositional stream `emit t k (retok post)`: every
-maximal run of `>` is regrouped by `run` on its total length, whatever the nesting -/
-theorem closing_brackets_balance (c : Cfg) (env : Env) (t : DT) (h : prod c env t = true) (k : Nat)
+maximal run of `>` is regrouped by `run` on its total length, whatever the nesting (and whether or
+not `>` is an operator character of the dialect) -/
+theorem closing_brackets_balance (c : Cfg) (env : Env) (gtOp : Bool) (t : DT) (h : prod c env t = true) (k : Nat)
     (post : List Tok) (hp : post.head? ≠ some GtT) :
-    retok c (pre c env t ++ (gts k ++ post)) = emit c env t k (retok c post) :=
-  bridge c env t h k post hp
+    retok gtOp (pre c env t ++ (gts k ++ post)) = emit c env gtOp t k (retok gtOp post) :=
+  bridge c env gtOp t h k post hp
 
 /-- the printed tokens followed by real tokens are the `emit` stream -/
-theorem print_append (c : Cfg) (env : Env) (t : DT) (h : prod c env t = true) (rest : List Tok) :
-    printDT c env t ++ rest = emit c env t 0 rest := by
-  have := bridge c env t h 0 [] (by simp)
+theorem print_append (c : Cfg) (env : Env) (gtOp : Bool) (t : DT) (h : prod c env t = true) (rest : List Tok) :
+    printDT c env gtOp t ++ rest = emit c env gtOp t 0 rest := by
+  have := bridge c env gtOp t h 0 [] (by simp)
   rw [gts_zero, List.append_nil, retok_nil] at this
   rw [printDT, this, ← emit_append]
   rfl
 
 /-- the helper on `t` followed by `k` outer closers: value, `MatchedTrailingBracket`, and exactly
 the unconsumed closers (one fewer when a `>>` was split) followed by `T` -/
-theorem helper_roundtrip (c : Cfg) (env : Env) (t : DT) (hp : Producible c env t) (k : Nat) (T : List Tok)
+theorem helper_roundtrip (c : Cfg) (env : Env) (t : DT) (hp : prod c env t = true) (k : Nat) (T : List Tok)
     (fuel depth : Nat) (hc : Ctx false t k T) (hf : size t ≤ fuel) (hd : ndepth t ≤ depth) :
-    parseHelper c fuel depth (emit c env t k T) = .ok (t, trOf t k, remOf t k T) :=
-  helper_emit c env hp.1 t k T fuel depth hp.2 hc hf hd
+    parseHelper c fuel depth (emit c env false t k T) = .ok (t, trOf t k, remOf t k T) :=
+  helper_emit c env rfl t k T fuel depth hp hc hf hd
 
 theorem ctx_of_follow {t : DT} {rest : List Tok} (h : FollowOK t rest) : Ctx false t 0 rest := by
   intro _
@@ -83,51 +84,60 @@ theorem ctx_of_follow {t : DT} {rest : List Tok} (h : FollowOK t rest) : Ctx fal
     cases x <;> try rfl
     rename_i s; cases s <;> first | rfl | simp [followTok] at h1
 
+/-- where no three `>` meet, printing does not depend on `>` being an operator character -/
+theorem print_short (c : Cfg) (env : Env) (gtOp : Bool) (t : DT) (h : shortRuns 0 (pre c env t) = true) :
+    printDT c env gtOp t = printDT c env false t :=
+  retokGo_short gtOp (pre c env t) 0 h
+
 -- ------------------------------------------------------------------ the round trip
 /-- MAIN THEOREM.  For every producible type, any nesting depth: parsing the printed tokens followed
 by anything that cannot extend the type returns the type and leaves exactly what followed. -/
-theorem dt_roundtrip (c : Cfg) (env : Env) (t : DT) (rest : List Tok) (fuel depth : Nat)
-    (hp : Producible c env t) (hfollow : FollowOK t rest) (hf : size t ≤ fuel) (hd : ndepth t ≤ depth) :
-    parseDT c fuel depth (printDT c env t ++ rest) = .ok (t, rest) := by
-  rw [print_append c env t hp.2]
-  have := helper_roundtrip c env t hp 0 rest fuel depth (ctx_of_follow hfollow) hf hd
+theorem dt_roundtrip (c : Cfg) (env : Env) (gtOp : Bool) (t : DT) (rest : List Tok) (fuel depth : Nat)
+    (hp : Producible c env gtOp t) (hfollow : FollowOK t rest) (hf : size t ≤ fuel) (hd : ndepth t ≤ depth) :
+    parseDT c fuel depth (printDT c env gtOp t ++ rest) = .ok (t, rest) := by
+  have hpr : printDT c env gtOp t = printDT c env false t := by
+    rcases hp.2 with h | h
+    · rw [h]
+    · exact print_short c env gtOp t h
+  rw [hpr, print_append c env false t hp.1]
+  have := helper_roundtrip c env t hp.1 0 rest fuel depth (ctx_of_follow hfollow) hf hd
   simp only [parseDT, parseDataType, this]
   simp [trOf, remOf]
 
 /-- standing alone -/
-theorem dt_roundtrip_alone (c : Cfg) (env : Env) (t : DT) (fuel depth : Nat)
-    (hp : Producible c env t) (hf : size t ≤ fuel) (hd : ndepth t ≤ depth) :
-    parseDT c fuel depth (printDT c env t) = .ok (t, []) := by
-  have := dt_roundtrip c env t [] fuel depth hp ⟨rfl, by simp⟩ hf hd
+theorem dt_roundtrip_alone (c : Cfg) (env : Env) (gtOp : Bool) (t : DT) (fuel depth : Nat)
+    (hp : Producible c env gtOp t) (hf : size t ≤ fuel) (hd : ndepth t ≤ depth) :
+    parseDT c fuel depth (printDT c env gtOp t) = .ok (t, []) := by
+  have := dt_roundtrip c env gtOp t [] fuel depth hp ⟨rfl, by simp⟩ hf hd
   simpa using this
 
 /-- inside a cast (`CAST(a AS t)`) or as the last column: a `)` follows -/
-theorem dt_roundtrip_before_rparen (c : Cfg) (env : Env) (t : DT) (rest : List Tok) (fuel depth : Nat)
-    (hp : Producible c env t) (hf : size t ≤ fuel) (hd : ndepth t ≤ depth) :
-    parseDT c fuel depth (printDT c env t ++ RParen :: rest) = .ok (t, RParen :: rest) :=
-  dt_roundtrip c env t _ fuel depth hp ⟨rfl, by simp [RParen, Comma]⟩ hf hd
+theorem dt_roundtrip_before_rparen (c : Cfg) (env : Env) (gtOp : Bool) (t : DT) (rest : List Tok) (fuel depth : Nat)
+    (hp : Producible c env gtOp t) (hf : size t ≤ fuel) (hd : ndepth t ≤ depth) :
+    parseDT c fuel depth (printDT c env gtOp t ++ RParen :: rest) = .ok (t, RParen :: rest) :=
+  dt_roundtrip c env gtOp t _ fuel depth hp ⟨rfl, by simp [RParen, Comma]⟩ hf hd
 
 /-- in a column definition followed by another column: a `,` follows.  The extra hypothesis is
 necessary: see `struct_then_comma_rejected`. -/
-theorem dt_roundtrip_before_comma (c : Cfg) (env : Env) (t : DT) (rest : List Tok) (fuel depth : Nat)
-    (hp : Producible c env t) (hs : structEven t = false) (hf : size t ≤ fuel) (hd : ndepth t ≤ depth) :
-    parseDT c fuel depth (printDT c env t ++ Comma :: rest) = .ok (t, Comma :: rest) :=
-  dt_roundtrip c env t _ fuel depth hp ⟨rfl, by simp [hs]⟩ hf hd
+theorem dt_roundtrip_before_comma (c : Cfg) (env : Env) (gtOp : Bool) (t : DT) (rest : List Tok) (fuel depth : Nat)
+    (hp : Producible c env gtOp t) (hs : structEven t = false) (hf : size t ≤ fuel) (hd : ndepth t ≤ depth) :
+    parseDT c fuel depth (printDT c env gtOp t ++ Comma :: rest) = .ok (t, Comma :: rest) :=
+  dt_roundtrip c env gtOp t _ fuel depth hp ⟨rfl, by simp [hs]⟩ hf hd
 
 /-- yield: on a printed type (followed by anything that cannot extend it) the parser consumes
 exactly the printed tokens of the value it returns — the consumed prefix IS `printDT` of the
 result (`INT` and `INTEGER`, `ARRAY<t>` and `t[]` are distinct constructors, so this is exact) -/
-theorem dt_yield (c : Cfg) (env : Env) (t : DT) (rest : List Tok) (fuel depth : Nat)
-    (hp : Producible c env t) (hfollow : FollowOK t rest) (hf : size t ≤ fuel) (hd : ndepth t ≤ depth) :
-    ∃ t' rest', parseDT c fuel depth (printDT c env t ++ rest) = .ok (t', rest') ∧
-      printDT c env t ++ rest = printDT c env t' ++ rest' ∧ rest' = rest :=
-  ⟨t, rest, dt_roundtrip c env t rest fuel depth hp hfollow hf hd, rfl, rfl⟩
+theorem dt_yield (c : Cfg) (env : Env) (gtOp : Bool) (t : DT) (rest : List Tok) (fuel depth : Nat)
+    (hp : Producible c env gtOp t) (hfollow : FollowOK t rest) (hf : size t ≤ fuel) (hd : ndepth t ≤ depth) :
+    ∃ t' rest', parseDT c fuel depth (printDT c env gtOp t ++ rest) = .ok (t', rest') ∧
+      printDT c env gtOp t ++ rest = printDT c env gtOp t' ++ rest' ∧ rest' = rest :=
+  ⟨t, rest, dt_roundtrip c env gtOp t rest fuel depth hp hfollow hf hd, rfl, rfl⟩
 
 /-- printing is injective on producible types: different types print differently -/
-theorem print_injective (c : Cfg) (env : Env) (t u : DT) (ht : Producible c env t) (hu : Producible c env u)
-    (h : printDT c env t = printDT c env u) : t = u := by
-  have h1 := dt_roundtrip_alone c env t (size t + size u) (ndepth t + ndepth u) ht (by omega) (by omega)
-  have h2 := dt_roundtrip_alone c env u (size t + size u) (ndepth t + ndepth u) hu (by omega) (by omega)
+theorem print_injective (c : Cfg) (env : Env) (gtOp : Bool) (t u : DT) (ht : Producible c env gtOp t)
+    (hu : Producible c env gtOp u) (h : printDT c env gtOp t = printDT c env gtOp u) : t = u := by
+  have h1 := dt_roundtrip_alone c env gtOp t (size t + size u) (ndepth t + ndepth u) ht (by omega) (by omega)
+  have h2 := dt_roundtrip_alone c env gtOp u (size t + size u) (ndepth t + ndepth u) hu (by omega) (by omega)
   rw [h] at h1
   rw [h1] at h2
   cases h2
@@ -136,10 +146,11 @@ theorem print_injective (c : Cfg) (env : Env) (t u : DT) (ht : Producible c env 
 -- ------------------------------------------------------------------ non-vacuity
 def generic : Cfg :=
   { isGeneric := true, isBigQuery := false, isClickHouse := false, isDuckDb := false, isPostgres := false,
-    isSnowflake := false, trailingCommas := false, dqWord := true, lbWord := false, gtOp := false }
+    isSnowflake := false, trailingCommas := false, dqWord := true, lbWord := false }
 def bigquery : Cfg := { generic with isGeneric := false, isBigQuery := true, dqWord := false }
 def clickhouse : Cfg := { generic with isGeneric := false, isClickHouse := true }
-def postgres : Cfg := { generic with isGeneric := false, isPostgres := true, gtOp := true }
+/-- PostgreSQL: `>` is a custom-operator character (`gtOp = true` below) -/
+def postgres : Cfg := { generic with isGeneric := false, isPostgres := true }
 
 /-- identifiers `a`, `b`, … are no keywords; raw modifiers are not used in the examples -/
 def env0 : Env := { kwOf := fun _ => .noKw, lexMod := fun m => [.word m none .noKw] }
@@ -149,93 +160,98 @@ def idA : Ident := ⟨str "a", none⟩
 def idB : Ident := ⟨str "b", none⟩
 
 /-- `ARRAY<ARRAY<INT>>`: the two closers lex as ONE `>>` -/
-example : printDT generic env0 (.arrayAngle (.arrayAngle INT)) =
+example : printDT generic env0 false (.arrayAngle (.arrayAngle INT)) =
     [kwTok "ARRAY" .ARRAY, LtT, kwTok "ARRAY" .ARRAY, LtT, kwTok "INT" .INT, ShrT] := by decide
-example : parseDT generic 10 50 (printDT generic env0 (.arrayAngle (.arrayAngle INT))) =
+example : parseDT generic 10 50 (printDT generic env0 false (.arrayAngle (.arrayAngle INT))) =
     .ok (.arrayAngle (.arrayAngle INT), []) :=
-  dt_roundtrip_alone generic env0 _ 10 50 (by decide) (by decide) (by decide)
+  dt_roundtrip_alone generic env0 false _ 10 50 (by decide) (by decide) (by decide)
+
+/-- the same under PostgreSQL's lexer (`>` is an operator character, two closers are still `>>`) -/
+example : parseDT postgres 10 50 (printDT postgres env0 true (.arrayAngle (.arrayAngle INT))) =
+    .ok (.arrayAngle (.arrayAngle INT), []) :=
+  dt_roundtrip_alone postgres env0 true _ 10 50 (by decide) (by decide) (by decide)
 
 /-- `STRUCT<a INT64, b ARRAY<STRING>>` (BigQuery): `>>` closes the array and the struct -/
 def structEx : DT :=
   .struct (.cons (some idA) (.simple .int64) (.cons (some idB) (.arrayAngle (.withLen .string none)) .nil)) .angle
-example : (printDT bigquery env0 structEx).getLast? = some ShrT := by decide
-example : parseDT bigquery 20 50 (printDT bigquery env0 structEx ++ [RParen]) = .ok (structEx, [RParen]) :=
-  dt_roundtrip_before_rparen bigquery env0 _ [] 20 50 (by decide) (by decide) (by decide)
+example : (printDT bigquery env0 false structEx).getLast? = some ShrT := by decide
+example : parseDT bigquery 20 50 (printDT bigquery env0 false structEx ++ [RParen]) = .ok (structEx, [RParen]) :=
+  dt_roundtrip_before_rparen bigquery env0 false _ [] 20 50 (by decide) (by decide) (by decide)
 
 /-- `Nullable(DateTime64(3, 'UTC'))` (ClickHouse) -/
-example : parseDT clickhouse 10 50 (printDT clickhouse env0 (.nullable (.datetime64 3 (some (str "UTC"))))) =
+example : parseDT clickhouse 10 50 (printDT clickhouse env0 false (.nullable (.datetime64 3 (some (str "UTC"))))) =
     .ok (.nullable (.datetime64 3 (some (str "UTC"))), []) :=
-  dt_roundtrip_alone clickhouse env0 _ 10 50 (by decide) (by decide) (by decide)
+  dt_roundtrip_alone clickhouse env0 false _ 10 50 (by decide) (by decide) (by decide)
 
-/-- `INT[][]`, followed by a comma -/
-example : parseDT postgres 10 50 (printDT postgres env0 (.arraySquare (.arraySquare INT none) none) ++ [Comma]) =
+/-- `INT[][]` under PostgreSQL, followed by a comma -/
+example : parseDT postgres 10 50 (printDT postgres env0 true (.arraySquare (.arraySquare INT none) none) ++ [Comma]) =
     .ok (.arraySquare (.arraySquare INT none) none, [Comma]) :=
-  dt_roundtrip_before_comma postgres env0 _ [] 10 50 (by decide) (by decide) (by decide) (by decide)
+  dt_roundtrip_before_comma postgres env0 true _ [] 10 50 (by decide) (by decide) (by decide) (by decide)
 
 /-- `ARRAY<ARRAY<ARRAY<INT>>>[3]`: `>>` then `>`; an ODD number of closers before the suffix is fine -/
-example : parseDT generic 10 50 (printDT generic env0 (.arraySquare (.arrayAngle (.arrayAngle (.arrayAngle INT))) (some 3))) =
+example : parseDT generic 10 50 (printDT generic env0 false (.arraySquare (.arrayAngle (.arrayAngle (.arrayAngle INT))) (some 3))) =
     .ok (.arraySquare (.arrayAngle (.arrayAngle (.arrayAngle INT))) (some 3), []) :=
-  dt_roundtrip_alone generic env0 _ 10 50 (by decide) (by decide) (by decide)
+  dt_roundtrip_alone generic env0 false _ 10 50 (by decide) (by decide) (by decide)
 
 -- ------------------------------------------------------------------ where the round trip fails today
 /-- DEFECT 1: `ARRAY<ARRAY<INT>>[]` — after `>>` the inner `ARRAY<INT>` still holds the cursor when
 the `[` arrives, so the suffix attaches one level too deep: the array of arrays-of-arrays comes back
 as an array of (array-of-INT arrays). -/
 theorem square_after_even_closers_differs :
-    parseDT generic 10 50 (printDT generic env0 (.arraySquare (.arrayAngle (.arrayAngle INT)) none)) =
+    parseDT generic 10 50 (printDT generic env0 false (.arraySquare (.arrayAngle (.arrayAngle INT)) none)) =
       .ok (.arrayAngle (.arraySquare (.arrayAngle INT) none), []) ∧
-    prod generic env0 (.arraySquare (.arrayAngle (.arrayAngle INT)) none) = false := by
-  constructor <;> decide
+    prod generic env0 (.arraySquare (.arrayAngle (.arrayAngle INT)) none) = false :=
+  ⟨by with_unfolding_all rfl, by decide⟩
 
 /-- DEFECT 2: `STRUCT<a ARRAY<INT>>` followed by a comma (next column, next struct field): the
 struct's field loop takes the comma while the second half of `>>` is still pending and reports
 "unmatched > in STRUCT definition". -/
 theorem struct_then_comma_rejected :
     parseDT bigquery 10 50
-        (printDT bigquery env0 (.struct (.cons (some idA) (.arrayAngle INT) .nil) .angle) ++ [Comma]) =
+        (printDT bigquery env0 false (.struct (.cons (some idA) (.arrayAngle INT) .nil) .angle) ++ [Comma]) =
       .error .unmatchedStruct ∧
-    Producible bigquery env0 (.struct (.cons (some idA) (.arrayAngle INT) .nil) .angle) := by
-  constructor <;> decide
+    Producible bigquery env0 false (.struct (.cons (some idA) (.arrayAngle INT) .nil) .angle) :=
+  ⟨by with_unfolding_all rfl, by decide⟩
 
 /-- DEFECT 3: where `>` is a custom-operator character (PostgreSQL) three closers lex as ONE
 operator `>>>`, and `ARRAY<ARRAY<ARRAY<INT>>>` is rejected. -/
 theorem three_closers_rejected_where_gt_is_operator :
-    printDT postgres env0 (.arrayAngle (.arrayAngle (.arrayAngle INT))) =
+    printDT postgres env0 true (.arrayAngle (.arrayAngle (.arrayAngle INT))) =
       [kwTok "ARRAY" .ARRAY, LtT, kwTok "ARRAY" .ARRAY, LtT, kwTok "ARRAY" .ARRAY, LtT, kwTok "INT" .INT,
        .customOp [62, 62, 62]] ∧
-    parseDT postgres 10 50 (printDT postgres env0 (.arrayAngle (.arrayAngle (.arrayAngle INT)))) =
-      .error (.expected (str ">") (some (.customOp [62, 62, 62]))) := by
-  constructor <;> decide
+    parseDT postgres 10 50 (printDT postgres env0 true (.arrayAngle (.arrayAngle (.arrayAngle INT)))) =
+      .error (.expected (str ">") (some (.customOp [62, 62, 62]))) ∧
+    prod postgres env0 (.arrayAngle (.arrayAngle (.arrayAngle INT))) = true :=
+  ⟨by decide, by with_unfolding_all rfl, by decide⟩
 
 /-- the same value is fine where `>` is no operator character -/
-example : parseDT generic 10 50 (printDT generic env0 (.arrayAngle (.arrayAngle (.arrayAngle INT)))) =
+example : parseDT generic 10 50 (printDT generic env0 false (.arrayAngle (.arrayAngle (.arrayAngle INT)))) =
     .ok (.arrayAngle (.arrayAngle (.arrayAngle INT)), []) :=
-  dt_roundtrip_alone generic env0 _ 10 50 (by decide) (by decide) (by decide)
+  dt_roundtrip_alone generic env0 false _ 10 50 (by decide) (by decide) (by decide)
 
 /-- DEFECT 4: custom-type modifiers are printed raw.  A modifier that came from a quoted string
-(`foo('a b')`) prints as `foo(a b)` and comes back as TWO modifiers — for every environment in
-which the text `a b` lexes to the two words. -/
-theorem custom_modifier_splits (c : Cfg) (env : Env) (h : env.lexMod (str "a b") = [.word (str "a") none .noKw, .word (str "b") none .noKw])
-    (hk : env.kwOf (str "foo") = .noKw) :
-    parseDT c 10 50 (printDT c env (.custom [⟨str "foo", none⟩] [str "a b"])) =
-      .ok (.custom [⟨str "foo", none⟩] [str "a", str "b"], []) := by
-  cases c
+(`foo('a b')`) prints as `foo(a b)` and comes back as TWO modifiers — in the generic dialect and
+every environment in which the text `a b` lexes to the two words. -/
+theorem custom_modifier_splits (env : Env) (gtOp : Bool)
+    (h : env.lexMod [97, 32, 98] = [.word [97] none .noKw, .word [98] none .noKw])
+    (hk : env.kwOf [102, 111, 111] = .noKw) :
+    parseDT generic 10 50 (printDT generic env gtOp (.custom [⟨[102, 111, 111], none⟩] [[97, 32, 98]])) =
+      .ok (.custom [⟨[102, 111, 111], none⟩] [[97], [98]], []) := by
   simp only [printDT, pre, retok]
-  simp [h, hk, nameToks, intersperse, identTok, List.isEmpty, retokGo, run, LParen, RParen, GtT, ShrT, parseDT,
+  simp [h, hk, nameToks, intersperse, identTok, List.isEmpty, retokGo, run, LParen, RParen, Comma, GtT, ShrT, parseDT,
     parseDataType, parseHelper, headOf, parseLeaf, simpleOfKw, lenOfKw, intOfKw, numOfKw, parseCustom, objName,
-    parseIdent, bqSplit, splitOnDot, consumeSym, Tok.isSym, modLoop, wordDisplay, suffixLoop, str, bind,
+    parseIdent, bqSplit, generic, consumeSym, Tok.isSym, modLoop, SqlVerif.Pratt.wordDisplay, suffixLoop, bind,
     Except.bind, pure, Except.pure]
 
 /-- DEFECT 4': the empty modifier (`foo('')`) prints as `foo()` and vanishes. -/
-theorem custom_empty_modifier_vanishes (c : Cfg) (env : Env) (h : env.lexMod [] = [])
-    (hk : env.kwOf (str "foo") = .noKw) :
-    parseDT c 10 50 (printDT c env (.custom [⟨str "foo", none⟩] [[]])) =
-      .ok (.custom [⟨str "foo", none⟩] [], []) := by
-  cases c
+theorem custom_empty_modifier_vanishes (env : Env) (gtOp : Bool) (h : env.lexMod [] = [])
+    (hk : env.kwOf [102, 111, 111] = .noKw) :
+    parseDT generic 10 50 (printDT generic env gtOp (.custom [⟨[102, 111, 111], none⟩] [[]])) =
+      .ok (.custom [⟨[102, 111, 111], none⟩] [], []) := by
   simp only [printDT, pre, retok]
-  simp [h, hk, nameToks, intersperse, identTok, List.isEmpty, retokGo, run, LParen, RParen, GtT, ShrT, parseDT,
+  simp [h, hk, nameToks, intersperse, identTok, List.isEmpty, retokGo, run, LParen, RParen, Comma, GtT, ShrT, parseDT,
     parseDataType, parseHelper, headOf, parseLeaf, simpleOfKw, lenOfKw, intOfKw, numOfKw, parseCustom, objName,
-    parseIdent, bqSplit, splitOnDot, consumeSym, Tok.isSym, modLoop, wordDisplay, suffixLoop, str, bind,
+    parseIdent, bqSplit, generic, consumeSym, Tok.isSym, modLoop, SqlVerif.Pratt.wordDisplay, suffixLoop, bind,
     Except.bind, pure, Except.pure]
 
 -- the DateTime64 zone is printed between quotes WITHOUT escaping (data_type.rs 616-631)
@@ -265,22 +281,22 @@ theorem datetime64_zone_quote_breaks :
 /-- the unrestricted statement (every value the parser returns, every follower that is not part of
 the type) is FALSE on the current code -/
 def FullStatement : Prop :=
-  ∀ (c : Cfg) (env : Env) (t : DT) (rest : List Tok),
+  ∀ (c : Cfg) (env : Env) (gtOp : Bool) (t : DT) (rest : List Tok),
     (∃ ts fuel depth, parseDT c fuel depth ts = .ok (t, [])) → rest.head? = some Comma →
-    ∃ fuel depth, parseDT c fuel depth (printDT c env t ++ rest) = .ok (t, rest)
+    ∃ fuel depth, parseDT c fuel depth (printDT c env gtOp t ++ rest) = .ok (t, rest)
 
 theorem fullStatement_false : ¬ FullStatement := by
   intro h
   -- `STRUCT<a ARRAY<INT> >` (separate `>` `>`) parses to the struct; its print ends in `>>`
-  obtain ⟨fuel, depth, hres⟩ := h bigquery env0 (.struct (.cons (some idA) (.arrayAngle INT) .nil) .angle) [Comma]
+  obtain ⟨fuel, depth, hres⟩ := h bigquery env0 false (.struct (.cons (some idA) (.arrayAngle INT) .nil) .angle) [Comma]
     ⟨[kwTok "STRUCT" .STRUCT, LtT, .word (str "a") none .noKw, kwTok "ARRAY" .ARRAY, LtT, kwTok "INT" .INT, GtT, GtT],
-      10, 50, by decide⟩ rfl
+      10, 50, by with_unfolding_all rfl⟩ rfl
   -- whatever the fuel and the depth, the answer is an error or another value
   have key : ∀ fuel depth, parseDT bigquery fuel depth
-      (printDT bigquery env0 (.struct (.cons (some idA) (.arrayAngle INT) .nil) .angle) ++ [Comma]) ≠
+      (printDT bigquery env0 false (.struct (.cons (some idA) (.arrayAngle INT) .nil) .angle) ++ [Comma]) ≠
       .ok (.struct (.cons (some idA) (.arrayAngle INT) .nil) .angle, [Comma]) := by
     intro fuel depth
-    have hp : printDT bigquery env0 (.struct (.cons (some idA) (.arrayAngle INT) .nil) .angle) ++ [Comma] =
+    have hp : printDT bigquery env0 false (.struct (.cons (some idA) (.arrayAngle INT) .nil) .angle) ++ [Comma] =
         [kwTok "STRUCT" .STRUCT, LtT, .word (str "a") none .noKw, kwTok "ARRAY" .ARRAY, LtT, kwTok "INT" .INT, ShrT, Comma] := by
       decide
     rw [hp]
